@@ -9,6 +9,17 @@ ALL = ["C%02d" % i for i in range(1, 21)]
 
 CHECKS = {
     # id: (category, technique, text, note, design_ref)
+    "C02": ("exploration",
+            "Hypothesis-generated knot vectors/points/derivative orders + exhaustive breakpoint sweep, compared with "
+            "Cox-de Boor in exact rational arithmetic (condition-aware rounding bound)",
+            "All evaluation routes (active_deriv/active_ev scalar+array, single_ev for every function, collocation, "
+            "collocation_derivs(_info), ev/deriv, compute_values_derivs, BSplineFunc grid evaluators) are compared with an "
+            "independent exact-rational Cox-de Boor reference at generated points including knots of every "
+            "multiplicity, both ends and adjacent floats, for p up to 12 and derivative orders up to p+2; tolerance "
+            "16(p+1)eps*S_k from the exact sum of absolute terms. Workers are crash-isolated (a segfault becomes a "
+            "violation with the journalled case). Sampling plus an exhaustive sweep of a small family; not a proof.",
+            "Trusted: Python fractions, numpy; points never denormal (FTZ/DAZ).",
+            "DESIGN.md section 2, C02"),
     "C19": ("exploration",
             "exhaustive enumeration of (p,n,mult) + Hypothesis-generated intervals/knot vectors/points against a "
             "linear-scan / exact-rational reference model",
